@@ -31,6 +31,8 @@ void mc_state(const void * canon, size_t len);
 /* Record a property violation for this execution (first one wins); does not unwind. */
 void mc_fail(const char * sig, const char * fmt, ...) __attribute__((format(printf, 2, 3)));
 int mc_failed(void);
+/* Record a violation signature but let the execution continue (used to explore past a known finding with the model following the implementation). */
+void mc_soft_fail(const char * sig, const char * fmt, ...) __attribute__((format(printf, 2, 3)));
 /* The process state can no longer be restored by teardown (after a violation): continue in a fresh worker process. */
 void mc_poison(void);
 /* Trace line (kept only in replay / verification runs). */
